@@ -46,3 +46,16 @@ pub fn control_r9_6_reborrow(fs: &CtlFs) -> u64 {
     drop(g);
     r
 }
+
+// ---- C13
+pub struct CtlEditor {
+    pub dirty: bool,
+}
+/// O1 control: a "read-only" root that writes to the device with no latch in front
+pub fn control_o1_ro_root_writes(d: &mut Dev, buf: &[u8]) -> Result<usize, DevErr> {
+    Write::write(d, buf)
+}
+/// O2 control: a "read-only" root that sets a write-back latch
+pub fn control_o2_ro_root_sets_latch(e: &mut CtlEditor) {
+    e.dirty = true;
+}
